@@ -24,6 +24,7 @@ LEVEL_TEXT = ("Full-strength theorems over the pacing model for every positive r
               "differential run of the real sleep_time / schedule_interrupt on generated (when, ticker.time, last_time, now, speed) with dyadic speeds "
               "and (ii) whole simulations under the virtual clock, with and without processing cost, whose tick start times must equal the model's. "
               "Float rounding of the real computation is outside the model (inputs are chosen so that the floats are exact). WITH ARBITRARY PROCESSING COSTS (Core/SimCost: the master loop in which the k-th tick takes cost k ns of real time and a stimulus arriving during a tick is stamped relative to that tick's start; Props/C12Cost): with all costs 0 it IS the zero-cost model (masterRunC_zero_cost); for every configuration, speed, cost function and stimuli a tick never starts before the previous one ended plus ceil(dt*den/num) unless it is overdue, in which case it starts at once, exactly as sleep_time computes it (runC_never_early, runC_step_computed); simulation time never runs ahead of scaled real time (runC_never_ahead) and lags it by the accumulated costs scaled by the speed plus at most k*(num-1)/den of rounding - bounds that are attained (runC_lag_bound, runC_lag_simtime, runC_linear_exact); every handled stimulus obeys the floor law relative to the end of the last tick (between ticks) or to the start of the tick in progress (mid-tick) (runC_stamp_law, runC_stamp_formula). The cost model is compared with the real scheduler on generated flat runs with per-update costs, speeds 1, 2, 1/2, 4, 1/4, 3/2 and stimuli between and in the middle of ticks (tick times, real start times and roots must be equal; stimuli raised at exactly the clock reading of a tick boundary are excluded: the code goes by event order there, the model by the clock).")
+LEVEL_ADDENDUM = 'Session 8: waits of 10 s ... 1 h of simulated time between ticks at speeds 1/4, 1/2, 1, 3/2, 2 and generated timed scenarios at second / minute scale; the comparison of real tick starts with the exact model tolerates the float rounding of such waits (at most 1 ns per tick beyond 2 s of real time; the never-early monitor is exact).'
 LEVEL_NOTE = "Trusts: Lean kernel; hand-written pacing model; the virtual-clock loop (quantised to integer ns); float arithmetic of sleep_time is exact only for dyadic speeds and times < 2^53 ns (generator restriction, stated in DESIGN.md)."
 ASSUMPTIONS = ["speeds are positive dyadic rationals in the runs", "interrupts are compared when they arrive between ticks; mid-tick arrival is C07's subject"]
 SPEEDS = [[1, 1], [2, 1], [1, 2], [4, 1], [1, 4], [8, 1]]
